@@ -4,7 +4,9 @@ use crate::runner::{Prop, RunResult, Tier};
 use serde_json::{json, Value};
 use std::collections::BTreeMap;
 
-pub const KNOWN_FINDINGS: &str = "/verif/known_findings.json";
+pub fn known_findings_path() -> String {
+    format!("{}/known_findings.json", crate::root())
+}
 
 #[derive(Clone, Debug)]
 pub struct Finding {
@@ -15,7 +17,7 @@ pub struct Finding {
 }
 
 pub fn load_findings() -> Vec<Finding> {
-    let text = match std::fs::read_to_string(KNOWN_FINDINGS) {
+    let text = match std::fs::read_to_string(known_findings_path()) {
         Ok(t) => t,
         Err(_) => return vec![],
     };
@@ -54,13 +56,13 @@ fn fnv(s: &str) -> u64 {
 }
 
 pub fn write_replay(property: &str, tier: Tier, sig: &str, body: Value) -> String {
-    let _ = std::fs::create_dir_all("/verif/replays");
-    let path = format!("/verif/replays/{}-{:016x}.json", property, fnv(sig));
+    let _ = std::fs::create_dir_all(format!("{}/replays", crate::root()));
+    let path = format!("{}/replays/{}-{:016x}.json", crate::root(), property, fnv(sig));
     let mut v = body;
     v["property"] = json!(property);
     v["tier"] = json!(tier.name());
     v["sig"] = json!(sig);
-    v["how"] = json!(format!("cd /verif && ./check replay {}", path));
+    v["how"] = json!(format!("cd {} && ./check replay {}", crate::root(), path));
     let _ = std::fs::write(&path, serde_json::to_string_pretty(&v).unwrap());
     path
 }
@@ -76,7 +78,7 @@ pub struct Evidence {
 }
 
 pub fn write_evidence(e: &Evidence) {
-    let _ = std::fs::create_dir_all("/verif/evidence");
+    let _ = std::fs::create_dir_all(format!("{}/evidence", crate::root()));
     let seed: i64 = std::env::var("VERIF_SEED").ok().and_then(|s| s.parse().ok()).unwrap_or(0);
     let v = json!({
         "property_id": e.property,
@@ -88,7 +90,7 @@ pub fn write_evidence(e: &Evidence) {
         "wall_s": e.wall_s,
         "violations": e.violations,
     });
-    let path = format!("/verif/evidence/{}.json", e.property);
+    let path = format!("{}/evidence/{}.json", crate::root(), e.property);
     std::fs::write(&path, serde_json::to_string_pretty(&v).unwrap()).expect("write evidence");
 }
 
